@@ -725,7 +725,7 @@ Definition dec_xsteps (now : Z) (s : mstate) (st el : J) : option (list xstep) :
   | JL [JI 10; JI k] => if k <? 0 then None else Some [XUse (Z.to_nat k)]
   | JL [JI 11; JI ms] => Some [XSleep ms]
   | JL [JI 12; JI base; JI count; JI v; JI mode] =>
-      let idx := map (fun i => base + Z.of_nat i) (seq 0 (Z.to_nat count)) in
+      let idx := map (fun i => base + Z.of_nat i) (rev (seq 0 (Z.to_nat count))) in
       if v <? 0 then None
       else if mode =? 0 then Some (map (fun n => XCall (SetC n (Z.to_N v))) idx)
       else if mode =? 1 then Some (map (fun n => XCall (Incr n (Z.to_N v))) idx)
